@@ -1,8 +1,7 @@
 import CogentModel.Proofs.PhyloBasic
 set_option linter.unusedSimpArgs false
 set_option linter.unnecessarySeqFocus false
-/-! C09: `unrooted` — tips always preserved; distances only in the cases listed; the repaired
-variant preserves every distance. -/
+/-! C09: `unrooted` preserves tips and every distance. -/
 namespace CogentModel.Phylo
 open PTree
 variable {K : Type}
@@ -26,61 +25,7 @@ theorem tipsL_map_rename (f : PTree K → Option K) (cs : List (PTree K)) :
   | nil => rfl
   | cons c cs ih => simp [tipsL, tips_rename, ih]
 
-theorem unrootedGo_false [Add K] (cs : List (PTree K)) : unrootedGo false cs = cs := by
-  induction cs with
-  | nil => rfl
-  | cons c cs ih => simp [unrootedGo, ih]
-
-theorem tipsL_unrootedGo [Add K] (need : Bool) (cs : List (PTree K)) :
-    tipsL (unrootedGo need cs) = tipsL cs := by
-  induction cs generalizing need with
-  | nil => rfl
-  | cons c cs ih =>
-    simp only [unrootedGo]
-    split
-    · rename_i h
-      have hc : c.children ≠ [] := by
-        intro h0; simp [h0] at h
-      rw [tipsL_append, tipsL_map_rename, unrootedGo_false, tipsL, tips_of_children c hc]
-    · simp [tipsL, ih]
-
-theorem unrootedGo_eq_nil [Add K] (need : Bool) (cs : List (PTree K)) :
-    unrootedGo need cs = [] ↔ cs = [] := by
-  cases cs with
-  | nil => simp [unrootedGo]
-  | cons c cs =>
-    simp only [unrootedGo]
-    split
-    · rename_i h
-      have hc : c.children ≠ [] := by
-        intro h0; simp [h0] at h
-      simp [hc]
-    · simp
-
-theorem tips_unrooted [Add K] (t : PTree K) : tips (unrooted t) = tips t := by
-  cases t with
-  | node n l cs =>
-    simp only [unrooted, tips_node_eq, unrootedGo_eq_nil, tipsL_unrootedGo]
-
-theorem unrooted_noop [Add K] (t : PTree K)
-    (h : 3 ≤ t.children.length ∨ ∀ c ∈ t.children, c.children = []) : unrooted t = t := by
-  cases t with
-  | node n l cs =>
-    simp only [children_node] at h
-    simp only [unrooted]
-    congr 1
-    rcases h with h | h
-    · have : decide (cs.length < 3) = false := by simp; omega
-      rw [this, unrootedGo_false]
-    · generalize decide (cs.length < 3) = need
-      induction cs with
-      | nil => rfl
-      | cons c cs ih =>
-        have hc := h c (by simp)
-        simp only [unrootedGo, hc]
-        simp [ih (fun c' hc' => h c' (by simp [hc']))]
-
-/-! ### the repaired variant -/
+/-! ### structure of the collapse -/
 theorem splitFirstInternal_spec : ∀ (cs pre : List (PTree K)) (x : PTree K) (post : List (PTree K)),
     splitFirstInternal cs = some (pre, x, post) →
     cs = pre ++ x :: post ∧ x.children ≠ [] ∧ ∀ c ∈ pre, c.children = []
@@ -153,13 +98,13 @@ theorem splitW_edge_some (d : K) (a b : String) (x : PTree K) (xl : K) (hx : x.l
 theorem sep_both_mem (a b : String) (A : List String) (ha : a ∈ A) (hb : b ∈ A) : sep a b A = false := by
   simp [sep, ha, hb]
 
-/-- The repaired `unrooted` preserves every tip-to-tip distance (all lengths at the root present). -/
-theorem unrootedFixed_dist (d : K) (t : PTree K) (hnd : (tips t).Nodup)
+/-- `unrooted` preserves every tip-to-tip distance (all lengths at the root present). -/
+theorem unrooted_dist (d : K) (t : PTree K) (hnd : (tips t).Nodup)
     (hlen : ∀ c ∈ t.children, ∃ l, c.len = some l) (a b : String) (ha : a ∈ tips t) (hb : b ∈ tips t) :
-    distSpec d a b (unrootedFixed t) = distSpec d a b t := by
+    distSpec d a b (unrooted t) = distSpec d a b t := by
   cases t with
   | node n l cs =>
-    simp only [unrootedFixed]
+    simp only [unrooted]
     split
     · rename_i hlt
       cases hs : splitFirstInternal cs with
@@ -208,4 +153,25 @@ theorem unrootedFixed_dist (d : K) (t : PTree K) (hnd : (tips t).Nodup)
     · rfl
 
 end dist
+
+theorem tipsL_map_bump [Add K] (e : Option K) (cs : List (PTree K)) : tipsL (cs.map (bumpLen e)) = tipsL cs :=
+  tipsL_map_rename (fun s => addLen s.len e) cs
+
+theorem tips_unrooted [Add K] (t : PTree K) : tips (unrooted t) = tips t := by
+  cases t with
+  | node n l cs =>
+    simp only [unrooted]
+    split
+    · cases hs : splitFirstInternal cs with
+      | none => rfl
+      | some v =>
+        obtain ⟨pre, x, post⟩ := v
+        obtain ⟨hcs, hxc, _⟩ := splitFirstInternal_spec cs pre x post hs
+        subst hcs
+        have hne : pre.map (bumpLen x.len) ++ x.children ++ post.map (bumpLen x.len) ≠ [] := by
+          intro h; simp at h; exact hxc h.2.1
+        rw [tips_node_ne_nil _ _ _ hne, tips_node_ne_nil _ _ _ (by simp)]
+        simp only [tipsL_append, tipsL, tipsL_map_bump, tips_of_children x hxc, List.append_assoc]
+    · rfl
+
 end CogentModel.Phylo
